@@ -396,6 +396,10 @@ bool AnalyserModel::needAcothFunction() const
 bool AnalyserModel::areEquivalentVariables(const VariablePtr &variable1,
                                            const VariablePtr &variable2)
 {
+    if ((variable1 == nullptr) || (variable2 == nullptr)) {
+        return false;
+    }
+
     // This is a cached version of the areEquivalentVariables() utility. Indeed,
     // an AnalyserModel object refers to a static version of a model, which
     // means that we can safely cache the result of a call to that utility. In
